@@ -7,9 +7,9 @@ import SaModel.Spec.Blame
 /-
 C18, blame against the SPECIFICATION (`Spec.blameDT`): vocabulary.
 
-  `Bl S r`            if `r` is an annotated error, its `field` is one of the paths in `S` (no exception any more: since
-                      repo fix ca6f255 a `None` for a non-nullable dictionary column is refused by the dictionary
-                      builder itself, under the column's path, not by its key builder under `{p}.key`)
+  `Bl S r`            if `r` is an annotated error, its `field` is one of the paths in `S` (without exception: a `None`
+                      for a non-nullable dictionary column is refused by the dictionary builder itself, under the
+                      column's path, not by its key builder under `{p}.key` — repo fix ca6f255)
   `At path dt n md b` `b` is a (later) state of the builder `build_builder` creates at `path` for a field of type `dt`
   `Kids…`             the children of a struct / union state, each `GoodH` and `At` its own path
 -/
